@@ -5,6 +5,7 @@ import (
 	"fmt"
 
 	"github.com/taurusgroup/multi-party-sig/internal/bip32"
+	"github.com/taurusgroup/multi-party-sig/internal/cborutil"
 	"github.com/taurusgroup/multi-party-sig/internal/params"
 	"github.com/taurusgroup/multi-party-sig/pkg/math/curve"
 	"github.com/taurusgroup/multi-party-sig/pkg/party"
@@ -74,6 +75,24 @@ func (r *Config) Validate() error {
 	}
 	if r.Threshold < 0 || r.Threshold >= len(r.VerificationShares.Points) {
 		return fmt.Errorf("config: threshold %d is invalid", r.Threshold)
+	}
+	return nil
+}
+
+// UnmarshalCBOR restores a config (initialized with EmptyConfig) and validates it, so that corrupted or
+// incomplete data is reported as an error instead of yielding a config that breaks later protocol runs.
+func (r *Config) UnmarshalCBOR(data []byte) error {
+	type plain Config
+	if err := cborutil.Unmarshal(data, (*plain)(r)); err != nil {
+		return err
+	}
+	if err := r.Validate(); err != nil {
+		return err
+	}
+	for id, share := range r.VerificationShares.Points {
+		if share.IsIdentity() {
+			return fmt.Errorf("config: verification share of %s is the identity", id)
+		}
 	}
 	return nil
 }
@@ -178,6 +197,23 @@ func (r *TaprootConfig) Validate() error {
 	}
 	if r.Threshold < 0 || r.Threshold >= len(r.VerificationShares) {
 		return fmt.Errorf("config: threshold %d is invalid", r.Threshold)
+	}
+	return nil
+}
+
+// UnmarshalCBOR restores a config and validates it, see Config.UnmarshalCBOR.
+func (r *TaprootConfig) UnmarshalCBOR(data []byte) error {
+	type plain TaprootConfig
+	if err := cborutil.Unmarshal(data, (*plain)(r)); err != nil {
+		return err
+	}
+	if err := r.Validate(); err != nil {
+		return err
+	}
+	for id, share := range r.VerificationShares {
+		if share.IsIdentity() {
+			return fmt.Errorf("config: verification share of %s is the identity", id)
+		}
 	}
 	return nil
 }
